@@ -26,8 +26,9 @@ LEVEL_NAME = {0: "CLEAN", 1: "SHALLOW", 2: "SHARED"}
 
 SHALLOW_CTORS = {"list", "dict", "set", "tuple", "sorted", "reversed", "frozenset", "copy.copy",
                  "OrderedDict", "collections.OrderedDict", "defaultdict"}
-SCALAR_FUNCS = {"len", "int", "float", "str", "bool", "repr", "isinstance", "max", "min", "sum",
+SCALAR_FUNCS = {"len", "int", "float", "str", "bool", "repr", "isinstance", "sum",
                 "abs", "any", "all", "id", "hash", "type"}
+SELECTORS = {"max", "min", "next", "random.choice"}  # hand back one of the elements of their argument
 DEREF_METHODS = {"get", "values", "items", "keys", "pop", "copy", "__getitem__", "setdefault"}
 
 
@@ -127,13 +128,22 @@ class Evaluator:
                 return SHALLOW if m >= SHALLOW else CLEAN
             if fn in SCALAR_FUNCS:
                 return CLEAN
+            if fn in SELECTORS:
+                m = max([self.level(a) for a in e.args] or [CLEAN])
+                return SHARED if m >= SHALLOW else CLEAN
             if isinstance(e.func, ast.Attribute) and e.func.attr in DEREF_METHODS:
                 base = self.level(e.func.value)
                 if e.func.attr == "copy":
                     return SHALLOW if base >= SHALLOW else CLEAN
                 return SHARED if base >= SHALLOW else CLEAN
-            if fn in ("enumerate", "zip", "iter", "next", "filter", "map", "itertools.chain"):
+            if fn in ("enumerate", "zip", "iter", "filter", "map", "itertools.chain"):
                 m = max([self.level(a) for a in e.args] or [CLEAN])
+                return SHALLOW if m >= SHALLOW else CLEAN
+            if isinstance(e.func, ast.Name) and not fn[:1].isupper():
+                # a plain function applied to a container of shared objects is assumed to hand (some of)
+                # them back in a new container (filters such as _get_feasible_trials); constructors
+                # (CamelCase) build a new object
+                m = max([self.level(a) for a in e.args] + [self.level(k.value) for k in e.keywords] or [CLEAN])
                 return SHALLOW if m >= SHALLOW else CLEAN
             return CLEAN
         return CLEAN
